@@ -20,6 +20,8 @@ def run(ctx):
                       "(written only under pid == *pids.last()), whatever order the stages finish in")
     ctx.rule("R03-5", "cicada -c exits with previous_status; a script run exits with run_script's value, "
                       "which is the status of the last command result")
+    ctx.rule("R03-8", "the status && / || test is a real one: main resets an inherited SIGCHLD disposition before it runs "
+                      "anything (the analysis of C02 R02-8; bin crate)")
     ctx.rule("R03-7", "line_to_cmds recognises `;`, `&&`, `||` with a look-ahead in the same index space as its cursor: the "
                       "counter of chars().enumerate() is never used as a byte offset, so non-ASCII text before an operator "
                       "cannot hide it")
@@ -28,6 +30,9 @@ def run(ctx):
         if ctx.require(crate.fn("parsers::parser_line::line_to_cmds") is not None, "R03-7", "R03-7|anchor",
                        "parsers::parser_line::line_to_cmds not found"):
             ispace.rule(ctx, crate, "R03-7", ["parsers::parser_line::line_to_cmds"])
+        if crate.kind == "bin":
+            from .c02 import sigchld_rule
+            sigchld_rule(ctx, crate, "R03-8")
         body = crate.fn("execute::run_command_line")
         if ctx.require(body is not None, "R03-1", "R03-1|anchor", "execute::run_command_line not found"):
             ctx.analysed(body)
